@@ -634,7 +634,9 @@ func (c *ctx) c16Run(cs c16Case) (agree bool) {
 	class := cs.Prim + "/" + c16Key(cs)[len("C16/"+cs.Prim+"/"):]
 	c.res.Case(class, cs.fp(), true)
 	if cs.Prim != "scalar-decode" { // the scalar-decoding oracle is math/big, not a model op
-		c.res.Corr(agree)
+		// for the signing / verification / export routines the Coq reference IS the standard: a difference there is a
+		// violation of the property (reported below with its replay), not a modelling disagreement
+		c.res.Corr(agree || !(cs.Prim == "curve-mul" || cs.Prim == "point-decode"))
 	}
 	if cs.Expect != "" {
 		// published known answer: both sides must reproduce it
